@@ -20,6 +20,7 @@ from . import kernel
 from .kernel import VERIF_DIR
 
 WORKERS = int(os.environ.get("VERIF_WORKERS", "16"))
+MAX_GROUPS_PER_CLASS = 2
 
 
 def log(*a):
@@ -32,6 +33,8 @@ def engine_module(engine: str):
         from . import searchsim as m
     elif engine == "E2":
         from . import clisim as m
+    elif engine == "E2R":
+        from . import rtsim as m
     elif engine == "E1":
         from . import apisim as m
     else:
@@ -77,6 +80,10 @@ class Batch:
                 self.nontrivial.add(d)
         if st == "violation":
             self.violations.append(r)
+            for ov in r.get("more_violations", []):
+                q = dict(r)
+                q["violation"] = ov
+                self.violations.append(q)
         if r.get("sample") is not None and len(self.samples) < 6:
             self.samples.append(r["sample"])
 
@@ -92,6 +99,7 @@ def handle_violations(prop: str, engine: str, violations: list, tier: str):
         key = (v["vclass"], json.dumps(v.get("features", {}), sort_keys=True))
         groups.setdefault(key, []).append(r)
     new_lines, known_hits = [], collections.OrderedDict()
+    per_class = collections.Counter()
     for key, rs in groups.items():
         v = rs[0]["violation"]
         kf = kernel.match_known(prop, v, known)
@@ -99,12 +107,21 @@ def handle_violations(prop: str, engine: str, violations: list, tier: str):
             known_hits.setdefault(kf["id"], [kf, 0])
             known_hits[kf["id"]][1] += len(rs)
             continue
+        per_class[v["vclass"]] += 1
+        if per_class[v["vclass"]] > MAX_GROUPS_PER_CLASS:
+            # further feature groups of an already reported class: listed, not minimised (cost), still counted as new
+            log(f"  also violation class {v['vclass']} with features {v.get('features')} ({len(rs)} runs): {v['detail'][:200]}")
+            new_lines.append(("dup", v, len(rs), 0))
+            continue
         # minimise the cheapest instance
         r0 = min(rs, key=lambda r: r.get("cost", 0))
         plan = r0["plan"]
         budget = 400 if tier == "thorough" else 60
         try:
-            plan_min, steps = mod.minimise(plan, v["vclass"], budget)
+            if "invocation" in v:
+                plan_min, steps = mod.minimise(plan, v["vclass"], budget, hint=v["invocation"])
+            else:
+                plan_min, steps = mod.minimise(plan, v["vclass"], budget)
         except Exception as e:  # noqa: BLE001
             log(f"[minimise] failed ({e!r}); keeping the original plan")
             plan_min, steps = plan, 0
@@ -137,10 +154,10 @@ def cmd_replay(path: str, quiet=False) -> int:
     mod = engine_module(plan["engine"])
     r = mod.run_plan(plan)
     want = body["violation"]["vclass"]
-    if r["status"] == "violation" and r["violation"]["vclass"] == want:
+    if r["status"] == "violation" and want in kernel.vclasses(r):
         log(f"REPRODUCED property={body['property']} vclass={want} digest={r.get('digest')}")
         if not quiet:
-            log(json.dumps(r["violation"], indent=1))
+            log(json.dumps([r["violation"]] + r.get("more_violations", []), indent=1))
         return 1
     log(f"NOT-REPRODUCED status={r['status']} got={r.get('violation', {}).get('vclass')} want={want}")
     if r["status"] == "harness_error":
@@ -159,6 +176,9 @@ def cmd_check(prop: str, tier: str) -> int:
     seed = kernel.master_seed()
     log(f"VERIF_SEED={seed} property={prop} tier={tier} workers={WORKERS}")
     t0 = _t.time()
+    from . import seams
+
+    seams.sweep_stale_scratch()
     spec = spec_for(prop, tier)
     batches = []
     harness_problems = 0
@@ -198,6 +218,8 @@ def cmd_check(prop: str, tier: str) -> int:
             known_all[kid][1] += cnt
         for path, v, cnt, steps in new_lines:
             n_new += 1
+            if path == "dup":
+                continue
             if path is None:
                 harness_problems += 1
                 continue
